@@ -17,15 +17,41 @@
    current epoch at any time (next / replay / future), or a corrupted one. *)
 EXTENDS Naturals, FiniteSets, Sequences, TLC
 
-CONSTANTS Transport,      \* "IP" | "BLE" | "COAP"
-          Deviations,     \* subset of {"rewind", "forward", "reset"} (COAP)
-          MaxEpoch, MaxCtr, MaxFrames
+CONSTANTS
+    \* @type: Str;
+    Transport,      \* "IP" | "BLE" | "COAP"
+    \* @type: Set(Str);
+    Deviations,     \* subset of {"rewind", "forward", "reset"} (COAP)
+    \* @type: Int;
+    MaxEpoch,
+    \* @type: Int;
+    MaxCtr,
+    \* @type: Int;
+    MaxFrames
 
-VARIABLES epoch, open, sendCtr, recvCtr, evCtr, accSent, accEvSent,
-          usedEnc,      \* history: set of <<epoch, counter>> passed to encrypt
-          reused,       \* history: some (epoch, counter) was encrypted twice
-          accepted,     \* history: sequence of <<epoch, channel, counter>> whose plaintext was delivered
-          lastDev       \* which deviation action the last step took ("none" otherwise)
+VARIABLES
+    \* @type: Int;
+    epoch,
+    \* @type: Bool;
+    open,
+    \* @type: Int;
+    sendCtr,
+    \* @type: Int;
+    recvCtr,
+    \* @type: Int;
+    evCtr,
+    \* @type: Int;
+    accSent,
+    \* @type: Int;
+    accEvSent,
+    \* @type: Set(<<Int, Int>>);
+    usedEnc,      \* history: set of <<epoch, counter>> passed to encrypt
+    \* @type: Bool;
+    reused,       \* history: some (epoch, counter) was encrypted twice
+    \* @type: Seq(<<Int, Str, Int>>);
+    accepted,     \* history: sequence of <<epoch, channel, counter>> whose plaintext was delivered
+    \* @type: Str;
+    lastDev       \* which deviation action the last step took ("none" otherwise)
 
 vars == <<epoch, open, sendCtr, recvCtr, evCtr, accSent, accEvSent, usedEnc, reused, accepted, lastDev>>
 
@@ -38,7 +64,8 @@ Request(n) ==
     \* before it notices that the transport is closing)
     \* On CoAP a context that shut itself down is not used again (the connection builds a new one).
     /\ n \in 1..MaxFrames /\ (Transport = "COAP" => (n = 1 /\ open)) /\ sendCtr + n <= MaxCtr
-    /\ LET new == {<<epoch, sendCtr + i>> : i \in 0..(n - 1)} IN
+    /\ LET \* @type: Set(<<Int, Int>>);
+           new == {<<epoch, sendCtr + i>> : i \in {k \in 0..(MaxFrames - 1) : k < n}} IN
        /\ reused' = (reused \/ new \cap usedEnc # {})
        /\ usedEnc' = usedEnc \cup new
     /\ sendCtr' = sendCtr + n
@@ -125,5 +152,19 @@ AcceptPrefix ==
         \A i \in 1..Len(accepted) : accepted[i][3] = Cardinality({j \in 1..(i - 1) : accepted[j][1] = accepted[i][1]})
 \* a closed epoch is never used again (action property): once open is false only Rekey changes anything
 ClosedEpochUnused == [][~open => (epoch' # epoch \/ accepted' = accepted)]_vars
-LevelBound == TLCGet("level") <= 12
+
+\* ------------------------------------------------------------------ inductive invariant (unbounded counters)
+\* Checked with Apalache (spec/session/MC_SessionCountersInd.tla): IndInv holds initially and is preserved
+\* by every step, for counters and epochs of ANY size, and implies NoNonceReuse and AcceptOnceInOrder.
+IndInv ==
+    /\ epoch >= 1 /\ sendCtr >= 0 /\ recvCtr >= 0 /\ evCtr >= 0 /\ accSent >= 0 /\ accEvSent >= 0
+    /\ ~reused
+    /\ \A u \in usedEnc : u[1] < epoch \/ (u[1] = epoch /\ u[2] < sendCtr)
+    /\ \A i \in DOMAIN accepted :
+          /\ accepted[i][1] <= epoch
+          /\ (accepted[i][1] = epoch /\ accepted[i][2] = "resp") => accepted[i][3] < recvCtr
+          /\ (accepted[i][1] = epoch /\ accepted[i][2] = "event") => accepted[i][3] < evCtr
+          /\ \A j \in DOMAIN accepted :
+                (i < j /\ accepted[i][1] = accepted[j][1] /\ accepted[i][2] = accepted[j][2]) => accepted[i][3] < accepted[j][3]
+    /\ \A i \in DOMAIN accepted : \A j \in DOMAIN accepted : i < j => accepted[i][1] <= accepted[j][1]
 =============================================================================
